@@ -114,6 +114,7 @@ Definition ref_slot (f : fdesc) (v : val) : bytes :=
                 (if spec_default vk (snd e) then [] else spec_field vk 2 (snd e)))) l
       | _ => []
       end
+  | CNone, TMapOther => []
   end.
 End RefEnc.
 
@@ -384,6 +385,7 @@ Definition apply_known (m : mdesc) (slot : nat) (f : fdesc) (t : token) (fs : li
           match map_entry_of kk vk b with Some (k, v) => put (VMap (spec_map_set l k v)) | None => None end
       | _, _ => None
       end
+  | CNone, TMapOther => None
   end.
 
 Definition apply_token (m : mdesc) (t : token) (x : list val * bytes) : option (list val * bytes) :=
